@@ -3,6 +3,7 @@ from . import lib
 
 def run(res):
     n = 600 if res.tier == "quick" else 8000
+    nconc = 60 if res.tier == "quick" else 600
     lib.standard_check(
         res, "c16", n,
         prop_files=["theories/Properties/C16.v"],
@@ -16,7 +17,9 @@ def run(res):
                  "hint-ordered replay (Rib/Run.v canon): the model re-runs each AddEntry under an order reconstructed from the implementation's own oks/fails; theorems hold for every order",
                  "harness vh-c16: callback collectors (mutex; resolved-entry callbacks awaited per step with a 3 s watchdog), ygot structs -> Gallina printers, key/value code tables (drv/rib.go)"],
         assumptions=["RIB-level histories (AddEntry/DeleteEntry/Flush/AddNetworkInstance/SetPostChangeHook/SetResolvedEntryHook) called sequentially, on a rib.RIB and on the RIB of server.New(WithPostChangeRIBHook, WithRIBResolvedEntryHook, WithVRFs); one hook function per RIB (re-registering the same one is covered, replacing it by another is not)",
+                     "vh-c16 c16conc (oracle only, the model is sequential): SetPostChangeHook / SetResolvedEntryHook run in one goroutine while network instances are created in another and a stalled reader (RIBHolder.GetRIB unread, server.Get with a stuck client stream) keeps an existing instance read-locked, so that the registration is in progress for as long as the harness wants; "
+                     "no entry is programmed during the registration (the code promises notifications once SetPostChangeHook has returned); afterwards the history continues in the new and the old instances under the same oracle (fold of the notifications == RIBContents in every instance after every step). AddNetworkInstance may either wait for the registration or see its hook: both are accepted",
                      "the consumer is not told about instance creation: an instance without tables and one with empty tables are identified (mirror_eq)",
                      "immutability of resolved-entry snapshots is automatic in the model (values); the aliasing half is checked on the implementation only: every snapshot is rendered and deep-copied at arrival and compared again at the end of the history",
                      "a group listing one next-hop twice with different weights is excluded from the generator (the stored weight then depends on Go map order inside protomap)"],
-        vh_bin="vh-c16", shrink_key="steps")
+        vh_bin="vh-c16", shrink_key="steps", extra_runs=[("c16conc", nconc)])
